@@ -267,7 +267,7 @@ def match_known(prop, sig, known):
     for k in known:
         if k.get('status') != 'known' or k['property'] != prop:
             continue
-        if fnmatch.fnmatchcase(sig, k['signature']):
+        if sig == k['signature'] or (k.get('glob') and fnmatch.fnmatchcase(sig, k['signature'])):
             return k
     return None
 
